@@ -10,6 +10,7 @@ import RoModel.Drivers.Cancel
 import RoModel.Drivers.NilObs
 import RoModel.Drivers.Precision
 import RoModel.Drivers.SeqEq
+import RoModel.Drivers.ObsShared
 import RoModel.Drivers.Overlap
 import RoModel.Drivers.Timed
 import RoModel.Drivers.Plugin
@@ -45,6 +46,7 @@ def handlers : List (String × (Case → String)) := [
   ("nilobs", Drivers.NilObs.run),
   ("precision", Drivers.Precision.run),
   ("seqeq", Drivers.SeqEq.run),
+  ("sharedobs", Drivers.ObsShared.run),
   ("nextret", Drivers.Cancel.runNextRet),
   ("ctxpair", Drivers.Cancel.runCtxPair),
   ("lateuse", Drivers.Cancel.runLateUse),
